@@ -1260,12 +1260,29 @@ protected:
       auto connectionIt = req.headers.find("Connection");
       if (connectionIt != req.headers.end())
       {
+        // Connection is a comma-separated list of case-insensitive options (RFC 9110
+        // §7.6.1): "close" may be one of several ("keep-alive, Close"), so look at every
+        // list element instead of comparing the whole field value.
         std::string connValue = connectionIt->second;
         std::transform(connValue.begin(), connValue.end(), connValue.begin(), ::tolower);
-        if (connValue == "close")
+        std::size_t tokenStart = 0;
+        while (tokenStart <= connValue.size())
         {
-          shouldCloseConnection = true;
-          connectionHeader = "close";
+          const std::size_t comma = connValue.find(',', tokenStart);
+          const std::size_t tokenEnd = (comma == std::string::npos) ? connValue.size() : comma;
+          std::string token = connValue.substr(tokenStart, tokenEnd - tokenStart);
+          token.erase(0, token.find_first_not_of(" \t"));
+          token.erase(token.find_last_not_of(" \t") + 1);
+          if (token == "close")
+          {
+            shouldCloseConnection = true;
+            connectionHeader = "close";
+          }
+          if (comma == std::string::npos)
+          {
+            break;
+          }
+          tokenStart = comma + 1;
         }
       }
 
